@@ -22,6 +22,7 @@ type PropConfig struct {
 	Contracts []string `json:"contracts"`  // extra functions under contract verified for this property (besides tagged ones)
 	Note      string   `json:"note"`
 	NotDecided []string `json:"not_decided"`
+	Bounded    []BoundedSpec `json:"bounded"` // bounded stand-ins (bounded.go), never counted as proved
 }
 
 type Baseline struct {
@@ -376,6 +377,10 @@ func cmdCheck(args []string) int {
 	if nProp == 0 && violations == 0 {
 		lines = append(lines, "TOOL-ERROR: no property-level obligation generated for "+*prop)
 	}
+	boundedRes, blines, bviol := runBounded(*repo, *prop, cfg.Bounded)
+	lines = append(lines, blines...)
+	violations += bviol
+	boundedResults = boundedRes
 	for _, l := range lines {
 		fmt.Println(l)
 	}
@@ -423,6 +428,9 @@ func contractHasTag(cs *Contracts, con *FnContract, tag string) bool {
 	}
 	return false
 }
+
+// boundedResults: what the bounded stand-ins of the current check covered (for the evidence file).
+var boundedResults []BoundedResult
 
 // replayRepo is the tree the current check runs on (set by cmdCheck).
 var replayRepo = "/repo"
@@ -561,6 +569,8 @@ func writeEvidence(prop, tier string, seed int, results []*FnResult, outs []oblO
 			"samples":                  samples,
 			"all_obligations":          outs,
 			"not_decided":              cfg.NotDecided,
+			"bounded_stand_ins":        boundedResults,
+			"bounded_note":             "bounded_stand_ins are executions of the real code over a finite grid; they are NOT proofs and are not included in obligations/discharged",
 			"messages":                 lines,
 		},
 		"assumptions": sortedKeys(assumptions),
